@@ -9,6 +9,10 @@
 (*        "mx"       measurement of an observable that is not mapped         *)
 (*        "mv"       mapped observable 1 with a MISSING value                *)
 (*        "d"/"db"   dose row with / without a duration (bolus by default)   *)
+(*        "md"       measurement of mapped observable 1 on a row that ALSO   *)
+(*                   carries a dose with a duration (a trough sample taken   *)
+(*                   at the time of the next administration): the row is     *)
+(*                   both a measurement and a dose row                       *)
 (*        "c"        covariate row (no time)                                 *)
 (*   t = 0 encodes a missing time, v is a value code.                        *)
 (* The output-observable mapping is a FUNCTION output -> observable: the     *)
@@ -30,7 +34,10 @@ VARIABLES extra, phase
 vars == <<extra, phase>>
 Checked == phase = "checked"
 
-Kinds == {"m1", "m2", "mx", "mv", "d", "db", "c"}
+OutKind(o) == IF o = 1 THEN "m1" ELSE "m2"
+Kinds == {"m1", "m2", "mx", "mv", "d", "db", "md", "c"}
+DoseKinds == {"d", "db", "md"}
+Measures(k, o) == k = OutKind(o) \/ (o = 1 /\ k = "md")
 Rows == [id : Ids, kind : Kinds \ {"c"}, t : Times \cup {0}, v : Vals]
 \* base rows: individuals in DESCENDING order so that the extras decide the first-occurrence order
 IdSeq == SetToSortSeq(Ids, LAMBDA a, b : a > b)
@@ -53,13 +60,12 @@ FirstOcc(s, acc) == IF s = <<>> THEN acc
                     ELSE FirstOcc(Tail(s), IF Head(s).id \in CT_Rng(acc) THEN acc ELSE Append(acc, Head(s).id))
 IdOrder == FirstOcc(Data, <<>>)
 
-OutKind(o) == IF o = 1 THEN "m1" ELSE "m2"
 \* measurements of individual i for output o: (time, value) in row order, rows with a missing time or value dropped
-Meas(i, o) == LET rs == SelectSeq(Data, LAMBDA r : r.id = i /\ r.kind = OutKind(o) /\ r.t # 0)
+Meas(i, o) == LET rs == SelectSeq(Data, LAMBDA r : r.id = i /\ Measures(r.kind, o) /\ r.t # 0)
               IN [k \in DOMAIN rs |-> <<rs[k].t, rs[k].v>>]
 \* dose events of individual i: (amount code, time, duration code; 0 = bolus default), row order
-Regimen(i) == LET rs == SelectSeq(Data, LAMBDA r : r.id = i /\ r.kind \in {"d", "db"} /\ r.t # 0)
-              IN [k \in DOMAIN rs |-> <<rs[k].v, rs[k].t, IF rs[k].kind = "d" THEN rs[k].v ELSE 0>>]
+Regimen(i) == LET rs == SelectSeq(Data, LAMBDA r : r.id = i /\ r.kind \in DoseKinds /\ r.t # 0)
+              IN [k \in DOMAIN rs |-> <<rs[k].v, rs[k].t, IF rs[k].kind \in {"d", "md"} THEN rs[k].v ELSE 0>>]
 Cov(i) == LET rs == SelectSeq(Data, LAMBDA r : r.id = i /\ r.kind = "c") IN rs[1].v
 Posterior == [ids |-> IdOrder,
               meas |-> [k \in DOMAIN IdOrder |-> <<Meas(IdOrder[k], 1), Meas(IdOrder[k], 2)>>],
@@ -68,7 +74,7 @@ Posterior == [ids |-> IdOrder,
 
 \* ---- what must hold / must not matter --------------------------------------------------------
 \* every usable measurement row is routed exactly once, to its own individual and output
-Relevant(r) == r.kind \in {"m1", "m2"} /\ r.t # 0
+Relevant(r) == r.kind \in {"m1", "m2", "md"} /\ r.t # 0
 RoutedOnce == Checked =>
   LET total == FoldLeft(LAMBDA acc, i : acc + Len(Meas(i, 1)) + Len(Meas(i, 2)), 0, IdOrder)
   IN total = Cardinality({k \in DOMAIN Data : Relevant(Data[k])})
@@ -78,10 +84,10 @@ Stripped == SelectSeq(Data, LAMBDA r : ~Irrelevant(r))
 StrippedIds == FirstOcc(Stripped, <<>>)
 IrrelevantRowsIgnored == Checked =>
   \A i \in Ids : \A o \in 1..2 :
-     /\ Meas(i, o) = LET rs == SelectSeq(Stripped, LAMBDA r : r.id = i /\ r.kind = OutKind(o) /\ r.t # 0)
+     /\ Meas(i, o) = LET rs == SelectSeq(Stripped, LAMBDA r : r.id = i /\ Measures(r.kind, o) /\ r.t # 0)
                      IN [k \in DOMAIN rs |-> <<rs[k].t, rs[k].v>>]
 \* each individual's regimen is built from its own rows only
-OwnRowsOnly == Checked => \A i \in Ids : Len(Regimen(i)) = Cardinality({k \in DOMAIN Data : Data[k].id = i /\ Data[k].kind \in {"d", "db"} /\ Data[k].t # 0})
+OwnRowsOnly == Checked => \A i \in Ids : Len(Regimen(i)) = Cardinality({k \in DOMAIN Data : Data[k].id = i /\ Data[k].kind \in DoseKinds /\ Data[k].t # 0})
 AllIdsPresent == Checked => CT_Rng(IdOrder) = Ids /\ Len(IdOrder) = Cardinality(Ids)
 
 Init == extra \in UNION {[1..k -> Rows] : k \in 0..MaxExtra} /\ phase = "raw"
